@@ -12,13 +12,14 @@ request `["case", vars, cons, hints, limit, implSols, cnf, assumptions, satModel
   assumptions : literals passed as assumptions
   satModels   : models returned by `solve_sat`, each the list of variables that are true
   litmap      : per variable `[[value, boolean], …]` as in `IntVar.bool_vars`
-  mode        : bit 0 = projected enumeration of `cnf`, bit 1 = run the DFS mirror
+  mode        : bit 0 = projected enumeration of `cnf`, bit 1 = run the DFS mirror,
+                bit 2 = return the mirror clause list
 reply `[sols, hintSols, implChecks, mirrorCnf, chooseSat, dfsSols, cnfInfo]`
   sols       : every solution of the model (verified enumerator `solutions`)
   hintSols   : those compatible with the effective (in-domain) hints
   implChecks : per implementation assignment `0` ok, `1` not one in-domain value per variable,
                `2+k` constraint `k` violated (verified evaluator `check`)
-  mirrorCnf  : `encodeModel` (mirror of the repaired encoder)
+  mirrorCnf  : `encodeModel` (mirror of the repaired encoder) or `null`
   chooseSat  : `_choose_solver` picks SAT
   dfsSols    : solutions of the DFS mirror (repaired), or `null`
   cnfInfo    : `null` or `[wf, satUnderAssumptions, satModelChecks, proj]`, `proj` = `null` or, per
@@ -109,7 +110,8 @@ def handle (line : String) : String :=
             else Val.null
           Val.arr [Val.bool wf, Val.bool satA, Val.arr mchk, proj]
       (Val.arr [Val.ofIntss sols, Val.ofIntss hintSols, Val.ofInts checks,
-        Val.ofIntss (encodeModel M), Val.bool (chooseSat M), dfs, info]).render
+        (if mode / 4 % 2 == 1 then Val.ofIntss (encodeModel M) else Val.null), Val.bool (chooseSat M), dfs,
+        info]).render
     | _, _, _, _, _, _, _, _, _, _ => err "bad arguments"
   | _ => err "bad request"
 where
